@@ -40,9 +40,19 @@ def writeE (c : WCfg) (scale : Int → Int) (flush : Bool) (s : SW) (r : WRec) :
      | none => []
      | some _ => memberEffects flush (ready c s cl r.infoBytes).curSize ⟨r.tok, r.enc (ready c s cl r.infoBytes).infoOf, (ready c s cl r.infoBytes).infoOf⟩)
 
+/-- a record that fails to marshal: the fit test and the file creation leave their effects; the bytes the marshaler wrote
+    before failing are taken back by the truncation and are not part of the log of what stays on disk -/
+def failedE (c : WCfg) (scale : Int → Int) (flush : Bool) (s : SW) (r : WRec) : List Eff :=
+  match fitClose c scale s r.decl with
+  | none => []
+  | some cl =>
+    (if cl then closeE s else []) ++
+    (if (if cl then close s else s).cur.isNone then createE c flush (if cl then close s else s) r.infoBytes else [])
+
 def stepE (c : WCfg) (scale : Int → Int) (flush : Bool) (s : SW) : WOp → List Eff
   | .write r => writeE c scale flush s r
   | .rotate => closeE s
+  | .failed r => failedE c scale flush s r
 
 def runE (c : WCfg) (scale : Int → Int) (flush : Bool) (s : SW) : List WOp → List Eff
   | [] => []
@@ -129,6 +139,16 @@ theorem step_log (c : WCfg) (scale : Int → Int) (flush : Bool) (s : SW) (op : 
   cases op with
   | write r => exact write_log c scale flush s r h
   | rotate => exact close_log flush s h
+  | failed r =>
+    show effectLog flush (writeFailed c scale s r).1.files = effectLog flush s.files ++ failedE c scale flush s r
+    rw [writeFailed_eq]
+    unfold failedE
+    cases fitClose c scale s r.decl with
+    | none => simp
+    | some cl =>
+      simp only
+      rw [ready_log c flush s cl r.infoBytes h]
+      simp [List.append_assoc]
 
 /-- **the log is the run**: the effects issued step by step along any run of the writer are exactly the effect log of
     the files the run ends with -/
